@@ -52,7 +52,8 @@ _NAMES = {'x': 'x', 'y': 'y', 'z': 'z', 'n': 'n', 'w': 'w', 'X': 'X', 'xp': "x'"
           'a01': 'a_{01}', 'am2': 'a_{-2}', 'am0': 'a_{-0}', 'a0': 'a_{0}', 'A1': 'A_{1}', 'as1': 'a_1',
           'ab1': 'ab_{1}', 'sib1': 'sibling_1', 'sib2': 'sibling_2', 'pi': 'pi', 'c': 'c', 'sin': 'sin', 'cos': 'cos',
           'sinh': 'sinh', 'abs': 'abs', 'f': 'f', 'Sin': 'Sin', 'si': 'si', 'k': 'k', 'm': 'm', 'q': 'q', 'u': 'u', 'v': 'v',
-          'I': 'I', 'vc': 'vc', 'infty': 'infty'}
+          'I': 'I', 'vc': 'vc', 'infty': 'infty', 'a1p': "a_{1}'", 'a1pp': "a_{1}''", 'a1up': 'a_{1}^{2}', 'ap': "a'",
+          'ax': 'a_{x}', 'xpp': "x''", 'fp': "f'"}
 _OPS = {'lp': '(', 'rp': ')', 'lb': '[', 'rb': ']', 'cm': ',', 'pl': '+', 'mi': '-', 'ti': '*', 'dv': '/', 'pw': '^'}
 LXTAB = {'n0': lx_num('0', 0), 'n1': lx_num('1', 1), 'n2': lx_num('2', 2), 'n3': lx_num('3', 3), 'pct': LX_PCT}
 LXTAB.update({i: lx_name(s) for i, s in _NAMES.items()})
@@ -387,9 +388,12 @@ def replay_states(states, extra):
 T_VARS = ['x', 'y', 'z', 't']
 T_FUNCS_Z0 = ['sin', 'sinh', 'arctan', 'tanh', 'tan', 'arcsin']
 T_FUNCS_O0 = ['cos', 'cosh', 'exp']
-T_BAD_FUNCS = ['Sin', 'COS', 'sinhh', 'si', 'foo', 'F']
+T_BAD_FUNCS = ['Sin', 'COS', 'sinhh', 'si', 'foo', 'F', "f'", "sin'", "g''"]
 T_BAD_VARS = ['X', 'Y', "x'", "y''", 'x_1', 'z2', 'w', 'a', 'a_{007}', 'a_{-0}', 'B_{2}', 'a_1', 'ab_{1}', 'sibling_2',
-              'sibling_3', 'Pi', 'C', 'sin', 'f']
+              'sibling_3', 'Pi', 'C', 'sin', 'f',
+              # look-alikes: an allowed name followed by primes / an upper index, other decorations of a numbered head
+              "a_{1}'", "a_{12}''", 'a_{3}^{2}', "a_{-3}^{-1}'", "b_{2}'", 'b_{2}^{x}', "a'", 'a_{x}', 'a_{1x}', "c'", "pi'",
+              "sibling_1'", "x_{1}", 'x^{2}']
 T_SUFS = ['k', 'm', 'M', 'u', 'G', 'q', 'K', '%']
 T_FORBIDDEN = ['*0', '+ 2', 'sin', 'x*y', '-z', '^0', '(0)', '0 *', 'y+', ')*', '1+', 'c o s']
 
@@ -438,7 +442,7 @@ class Gen(object):
         r = self.rng
         p = r.random()
         if p < 0.42:
-            f = r.choice(T_FUNCS_Z0 + T_FUNCS_O0 + ['abs', 'sqrt'] + ['f', 'g', 'h'] * 2 + T_BAD_FUNCS[:r.randint(0, 6)] + ['x'])
+            f = r.choice(T_FUNCS_Z0 + T_FUNCS_O0 + ['abs', 'sqrt'] + ['f', 'g', 'h'] * 2 + T_BAD_FUNCS[:r.randint(0, len(T_BAD_FUNCS))] + ['x'])
             if f == 'g' or r.random() < 0.03:
                 args = [self.small(), self.small()]
             else:
